@@ -66,6 +66,8 @@ const TARGETS: &[Target] = &[
     Target { file: "ssz/src/decode.rs", imp: "", tr: "", name: "decode_offset", coq: "decode_offset" },
     Target { file: "ssz/src/decode.rs", imp: "", tr: "", name: "read_offset", coq: "read_offset" },
     Target { file: "ssz/src/union_selector.rs", imp: "UnionSelector", tr: "", name: "new", coq: "union_selector_new" },
+    Target { file: "ssz/src/union_selector.rs", imp: "u8", tr: "From", name: "from", coq: "union_selector_into_u8" },
+    Target { file: "ssz/src/union_selector.rs", imp: "UnionSelector", tr: "PartialEq", name: "eq", coq: "union_selector_eq_u8" },
     Target { file: "ssz/src/decode.rs", imp: "", tr: "", name: "split_union_bytes", coq: "split_union_bytes" },
     Target { file: "ssz/src/encode.rs", imp: "", tr: "", name: "encode_length", coq: "encode_length" },
     Target { file: "ssz/src/bitfield.rs", imp: "", tr: "", name: "bytes_for_bit_len", coq: "bytes_for_bit_len" },
@@ -132,6 +134,7 @@ const TARGETS: &[Target] = &[
     Target { file: "ssz/src/bitfield/bitvector_dynamic.rs", imp: "Bitfield<Dynamic>", tr: "Decode", name: "is_ssz_fixed_len", coq: "bitdyn_dec_is_ssz_fixed_len" },
     Target { file: "ssz/src/bitfield/bitvector_dynamic.rs", imp: "Bitfield<Dynamic>", tr: "Decode", name: "from_ssz_bytes", coq: "bitdyn_from_ssz_bytes" },
     Target { file: "ssz/src/bitfield.rs", imp: "Bitfield<T>", tr: "Hash", name: "hash", coq: "bitfield_hash" },
+    Target { file: "ssz/src/bitfield.rs", imp: "Bitfield<Fixed<N>>", tr: "Default", name: "default", coq: "bitvector_default" },
     Target { file: "ssz/src/bitfield.rs", imp: "Bitfield<Fixed<N>>", tr: "Arbitrary", name: "arbitrary", coq: "bitvector_arbitrary" },
     Target { file: "ssz/src/bitfield.rs", imp: "Bitfield<Variable<N>>", tr: "Arbitrary", name: "arbitrary", coq: "bitlist_arbitrary" },
     Target { file: "ssz/src/bitfield.rs", imp: "Bitfield<Variable<N>>", tr: "Serialize", name: "serialize", coq: "bitlist_serialize" },
@@ -481,7 +484,7 @@ fn self_ty_coq(imp: &str) -> Option<String> {
         return Some(format!("({})", cs.iter().map(|c| format!("A_{}", c)).collect::<Vec<_>>().join(" * ")));
     }
     Some(match imp {
-        "u8" | "u16" | "u32" | "u64" | "u128" | "usize" | "NonZeroUsize" | "U256" | "U128" => "N".to_string(),
+        "u8" | "u16" | "u32" | "u64" | "u128" | "usize" | "NonZeroUsize" | "U256" | "U128" | "UnionSelector" => "N".to_string(),
         "bool" => "bool".to_string(),
         "Address" | "Bloom" | "FixedBytes<N>" | "[u8;N]" | "Bytes" => "bytes".to_string(),
         "Option<T>" => "(option A_T)".to_string(),
@@ -1177,6 +1180,10 @@ impl Cx {
                                 t = format!("(snd {})", t);
                             }
                             return Ok((t, Pure));
+                        }
+                        if i.index == 0 && self.ty_of(&f.base).as_deref() == Some("UnionSelector") {
+                            // the newtype `UnionSelector(u8)` is its byte
+                            return Ok((base, Pure));
                         }
                         if i.index == 0 && base == "self" && self_ty_coq(&self.cur_imp).as_deref() == Some("bytes") {
                             // a newtype over a byte array (`FixedBytes(pub [u8; N])`, `Bloom(FixedBytes<256>)`, `Bytes`)
@@ -3570,7 +3577,7 @@ fn main() {
                             cx.mut_param = Some(name.clone());
                         }
                         // derive mode: the parameter's Rust type, for the resolution of method calls on it
-                        if !user().structs.is_empty() || !user().enums.is_empty() {
+                        if !user().structs.is_empty() || !user().enums.is_empty() || tokens_full(&*pt.ty).replace(' ', "").trim_start_matches('&') == "UnionSelector" {
                             cx.var_ty.insert(name.clone(), tokens_full(&*pt.ty).replace(' ', "").trim_start_matches('&').to_string());
                         }
                         match coq_type(&pt.ty, &records) {
